@@ -286,9 +286,11 @@ def translate(sig, body_src):
 def main():
     repo = sys.argv[1] if len(sys.argv) > 1 else "/repo"
     outp = sys.argv[2] if len(sys.argv) > 2 else "GenFin.lean"
-    out = ["/- GENERATED by translator/finals.py from tevec/src/agg.rs — do not edit. -/",
-           "import Tv.GenPrelude", "set_option linter.unusedVariables false", "namespace Tv.GenFin",
-           "open Tv.Gen", ""]
+    out = ["/- GENERATED by translator/finals.py from tevec/src/agg.rs and tevec/src/map.rs — do not edit. -/",
+           "import Tv.GenPrelude", "import Tv.GenAgg", "import Tv.GenMap", "set_option linter.unusedVariables false",
+           "namespace Tv.GenFin", "open Tv.Gen", "",
+           "/-- `WinsorizeMethod` -/", "inductive WinMethod where", "  | quantile | median | sigma",
+           "deriving DecidableEq, Repr", ""]
     try:
         src = open(os.path.join(repo, "tevec/src/agg.rs"), encoding="utf-8", errors="replace").read()
         src = re.sub(r"//[^\n]*", "", src.split("#[cfg(test)]")[0])
@@ -298,6 +300,16 @@ def main():
         reason = (("" if isinstance(ex, Unsupported) else type(ex).__name__ + ": ") + str(ex)).replace('"', "'")
         out.append(f"namespace half_life\n/- UNPARSED: {reason} -/\ndef parsed : Bool := false\n"
                    f"def reason : String := \"{reason}\"\nend half_life")
+    try:
+        msrc = open(os.path.join(repo, "tevec/src/map.rs"), encoding="utf-8", errors="replace").read()
+        msrc = re.sub(r"//[^\n]*", "", msrc.split("#[cfg(test)]")[0])
+        sig, body = M.fn_src(msrc, "MapValidFinal", "winsorize")
+        out.append("")
+        out.append(translate_winsorize(sig, body))
+    except Exception as ex:
+        reason = (("" if isinstance(ex, Unsupported) else type(ex).__name__ + ": ") + str(ex)).replace('"', "'")
+        out.append(f"\nnamespace winsorize\n/- UNPARSED: {reason} -/\ndef parsed : Bool := false\n"
+                   f"def reason : String := \"{reason}\"\nend winsorize")
     out.append("\nend Tv.GenFin")
     new = "\n".join(out) + "\n"
     try:
@@ -307,6 +319,148 @@ def main():
     if old != new:
         open(outp, "w", encoding="utf-8").write(new)
     print(f"finals.py: half_life -> {outp}")
+
+
+
+
+# ---------------------------------------------------------------------------------------------
+# winsorize (tevec/src/map.rs): the composition of vquantile / vmedian / vmean_var / vclip
+# ---------------------------------------------------------------------------------------------
+_spec_q = importlib.util.spec_from_file_location("quant", os.path.join(here, "quant.py"))
+Q = importlib.util.module_from_spec(_spec_q)
+_argv2 = sys.argv
+sys.argv = [_argv2[0], "/nonexistent", "/dev/null"]
+_spec_q.loader.exec_module(Q)
+sys.argv = _argv2
+
+WIN_ARMS = {"Quantile": ".quantile", "Median": ".median", "Sigma": ".sigma"}
+
+
+class WinCps(Q.Cps):
+    """`winsorize`: result `TResult<Box<dyn TrustedLen<Item = f64>>>` is `Option (List (Option Rat))`
+    (`none` = `Err`); `e?` binds; `self.vquantile(q, Linear)` / `self.vmedian()` /
+    `self.titer().vmean_var(k)` are the parameters `vquantile` / `vmedian` / `vmean_var`,
+    `self.iter_cast::<f64>()` is the input list, `.vclip(lo, hi)` the function regenerated by maps.py"""
+
+    def ex(self, e, env):
+        k = e[0]
+        if k == "path" and e[1] == "EPS":
+            return "GenAgg.EPS", "Rat", []
+        if k == "try":
+            t, ty, w = self.ex(e[1], env)
+            if not (isinstance(ty, tuple) and ty[0] == "res"):
+                raise Unsupported("? on a non-result")
+            self.nk += 1
+            v = f"t__{self.nk}"
+            return v, ty[1], w + [lambda body, t=t, v=v: f"match {t} with\n| none => none\n| some {v} =>\n{indent(body)}"]
+        if k == "mcall":
+            recv, name, args = e[1], e[2], e[3]
+            if recv == ("path", "self") and name == "vquantile" and len(args) == 2 and args[1] == ("path", "QuantileMethod::Linear"):
+                q, tq, wq = self.ex(args[0], env)
+                if tq != "Rat":
+                    raise Unsupported("quantile level")
+                return f"(vquantile xs {q})", ("res", "F"), wq
+            if recv == ("path", "self") and name == "vmedian" and not args:
+                return "(vmedian xs)", "F", []
+            if recv == ("path", "self") and name == "iter_cast" and not args:
+                return "xs", "ListE", []
+            if recv == ("path", "self") and name == "map" and len(args) == 1 and args[0][0] == "closure":
+                cl = args[0]
+                if len(cl[1]) != 1 or cl[1][0][0] != "pvar" or cl[2][0] != "block" or cl[2][1]:
+                    raise Unsupported("closure of map")
+                v = cl[1][0][1]
+                env_b = dict(env)
+                env_b[v] = "Elem"
+                b, tb, wb = self.ex(cl[2][2], env_b)
+                if wb or tb != "F":
+                    raise Unsupported("body of the map closure")
+                return f"(xs.map fun {lname(v)} => {b})", "ListE", []
+            if name == "vmean_var" and recv == ("mcall", ("path", "self"), "titer", []) and len(args) == 1:
+                a, ta, wa = self.ex(args[0], env)
+                if ta != "Nat":
+                    raise Unsupported("vmean_var argument")
+                return f"(vmean_var xs {a})", ("tuple", ("F", "F")), wa
+            r, tr, w = self.ex(recv, env)
+            if tr == "ListE" and name == "collect_trusted_to_vec" and not args:
+                return r, "ListE", w
+            if tr == "ListE" and name == "vmedian" and not args:
+                return f"(vmedian {r})", "F", w
+            if tr == "ListE" and name == "vclip" and len(args) == 2:
+                lo, tlo, wlo = self.ex(args[0], env)
+                hi, thi, whi = self.ex(args[1], env)
+                if tlo == "Rat":
+                    lo, tlo = f"(some {lo})", "F"
+                if thi == "Rat":
+                    hi, thi = f"(some {hi})", "F"
+                if tlo != "F" or thi != "F":
+                    raise Unsupported("vclip bounds")
+                return f"(GenMap.vclip.run {r} {lo} {hi})", "ListE", w + wlo + whi
+            if tr == "OptRat" and name == "unwrap_or" and len(args) == 1:
+                a, ta, wa = self.ex(args[0], env)
+                if ta != "Rat":
+                    raise Unsupported("unwrap_or operand")
+                return f"({r}.getD {a})", "Rat", w + wa
+            if tr in ("F", "Elem") and name == "not_none" and not args:
+                return f"{r}.isSome", "Bool", w
+            if tr == "F" and name == "abs" and not args:
+                return f"({r}.map ratAbs)", "F", w
+            if tr == "F" and name == "sqrt" and not args:
+                return f"({r}.map sqrt)", "F", w
+        if k == "bin" and e[1] in (">", "<", ">=", "<="):
+            a, ta, wa = self.ex(e[2], env)
+            b, tb, wb = self.ex(e[3], env)
+            if ta == "F" and tb == "Rat":
+                fn = {"<": "fLt", "<=": "fLe", ">": "fGt", ">=": "fGe"}[e[1]]
+                return f"({fn} {a} {b})", "Bool", wa + wb
+        return super().ex(e, env)
+
+    def result(self, e, env):
+        if e[0] == "call" and e[1] == "Ok" and len(e[2]) == 1 and e[2][0][0] == "call" and e[2][0][1] == "Box::new" and len(e[2][0][2]) == 1:
+            t, ty, w = self.ex(e[2][0][2][0], env)
+            if ty != "ListE":
+                raise Unsupported("boxed value")
+            return self.wrap(w, f"some {t}")
+        raise Unsupported("returned value")
+
+    def branch(self, e, env, k):
+        if e[0] == "match":
+            scrut, arms = e[1], e[2]
+            st, sty, sw = self.ex(scrut, env)
+            if sty != ("enum", "WinMethod"):
+                return super().branch(e, env, k)
+            out = [f"match {st} with"]
+            for pats, body in arms:
+                if len(pats) != 1 or pats[0] not in WIN_ARMS:
+                    raise Unsupported(f"match arm {pats}")
+                b = self.seq(body[1], body[2], env, k) if body[0] == "block" else self.seq([], body, env, k)
+                out.append(f"| {WIN_ARMS[pats[0]]} =>\n{indent(b)}")
+            return self.wrap(sw, "\n".join(out))
+        return super().branch(e, env, k)
+
+
+def translate_winsorize(sig, body_src):
+    blk = C.P(C.tokenize(body_src)).block()
+    if (not re.search(r"method\s*:\s*WinsorizeMethod", sig) or not re.search(r"method_params\s*:\s*Option<f64>", sig)
+            or "TResult<Box<dyn TrustedLen<Item = f64>" not in re.sub(r"\s+", " ", sig)):
+        raise Unsupported("signature of winsorize")
+    em = WinCps()
+
+    def final(v, ty, env):
+        if ty == "Res":
+            return em.result(v[1], env)
+        raise Unsupported(f"function value of type {ty}")
+    txt = em.seq(blk[1], blk[2], {"method": ("enum", "WinMethod"), "method_params": "OptRat"}, final)
+    L = ["namespace winsorize",
+         "/-- `winsorize` of tevec/src/map.rs, in source order; `none` = `Err`. Parameters: `vquantile l q` is",
+         "`l.vquantile(q, Linear)` (`none` = its error), `vmedian l` is `l.vmedian()`, `vmean_var l k` is",
+         "`l.titer().vmean_var(k)` (NaN = `none`); `vclip` is the function regenerated by maps.py -/",
+         "def run (sqrt : Rat → Rat) (vquantile : List (Option Rat) → Rat → Option (Option Rat))",
+         "    (vmedian : List (Option Rat) → Option Rat) (vmean_var : List (Option Rat) → Nat → Option Rat × Option Rat)",
+         "    (xs : List (Option Rat)) (method : WinMethod) (method_params : Option Rat) : Option (List (Option Rat)) :=",
+         indent(txt, 2),
+         "def parsed : Bool := true",
+         "end winsorize"]
+    return "\n".join(L)
 
 
 if __name__ == "__main__":
